@@ -209,7 +209,7 @@ FRACS = [0.5, 0.9, 0.99, 0.2]
 
 
 @st.composite
-def _problem_st(draw, solver):
+def _problem_st(draw, solver, mode='callback'):
     seed = draw(st.integers(0, 2 ** 24))
     p = {'seed': seed, 'x0scale': draw(st.sampled_from([1.0, 3.0, 0.3]))}
     if solver in ('admm', 'pdhg'):
@@ -221,6 +221,10 @@ def _problem_st(draw, solver):
                  frac=draw(st.sampled_from(FRACS)))
         if solver == 'pdhg':
             p['theta'] = draw(st.sampled_from([1.0, 1.0, 0.5, 0.0]))
+            # acceleration changes tau / sigma internally without exposing
+            # them: never part of the resume clause
+            p['accel'] = draw(st.sampled_from(['none', 'primal', 'dual'])) \
+                if mode == 'callback' else 'none'
     elif solver in ('adupdates', 'dr', 'fb'):
         sd = draw(_domain_st())
         nt = draw(st.integers(0 if solver != 'adupdates' else 1, 3))
@@ -323,7 +327,7 @@ def _strategy(draw):
         modes = ['resume'] * 3 + ['callback']
     mode = draw(st.sampled_from(modes))
     desc = {'solver': solver, 'mode': mode,
-            'p': draw(_problem_st(solver))}
+            'p': draw(_problem_st(solver, mode))}
     if mode == 'resume':
         k = draw(st.integers(2, 4))
         splits = [draw(st.sampled_from([0, 1, 1, 2, 3, 4, 5]))
@@ -444,9 +448,15 @@ def make_runner(solver, p):
             R.new_state = lambda: {'x': unflat(x0, X),
                                    'x_relax': unflat(x0, X),
                                    'y': unflat(y0, L.op.range)}
+            akw = {}
+            if p.get('accel', 'none') == 'primal':
+                akw['gamma_primal'] = 0.3
+            elif p.get('accel', 'none') == 'dual':
+                akw['gamma_dual'] = 0.3
             R.run = lambda s, n, cb=None: S.pdhg(
                 s['x'], f, g, L.op, int(n), tau=tau, sigma=sigma,
-                theta=theta, x_relax=s['x_relax'], y=s['y'], callback=cb)
+                theta=theta, x_relax=s['x_relax'], y=s['y'], callback=cb,
+                **akw)
             # restart that forgets the exposed state (non-triviality only)
             R.run_naive = lambda s, n: S.pdhg(
                 s['x'], f, g, L.op, int(n), tau=tau, sigma=sigma,
@@ -745,8 +755,9 @@ def _maxabs(*vs):
 
 def _diagnose_alias(R):
     """After a pair mismatch: is one of the proximals that the optimised
-    solver calls with ``out`` aliased to the input alias-unsafe?  (Names the
-    root cause in the signature; not part of the oracle.)"""
+    solver evaluates in place (``out`` aliased to the input, or a separate
+    ``out``) inconsistent with its out-of-place evaluation?  Names the root
+    cause in the signature; not part of the oracle."""
     for label, fd, factory, space in R.aliased:
         try:
             rng = np.random.RandomState(5)
@@ -754,11 +765,16 @@ def _diagnose_alias(R):
                                 3), space)
             prox = factory()
             ref = toflat(prox(v.copy()), space)
+            cls = '+'.join(sorted(pb.func_class_name({'kind': k})
+                                  for k in _kinds(fd)))
             w = v.copy()
             prox(w, out=w)
             if _maxabs(toflat(w, space) - ref) > 1e-9 * (1 + _maxabs(ref)):
-                return 'aliased-prox:' + '+'.join(sorted(
-                    pb.func_class_name({'kind': k}) for k in _kinds(fd)))
+                return 'aliased-prox:' + cls
+            w = space.element()
+            prox(v.copy(), out=w)
+            if _maxabs(toflat(w, space) - ref) > 1e-9 * (1 + _maxabs(ref)):
+                return 'inplace-prox:' + cls
         except Exception:  # noqa
             continue
     return None
@@ -787,6 +803,8 @@ def run_case(desc):
     for o in p.get('ops', []):
         strata.append('op:' + o['kind'])
 
+    if p.get('accel', 'none') != 'none':
+        strata.append('pdhg:accelerated')
     if mode == 'pair':
         return _pair(desc, R, name, strata)
     if mode == 'resume':
@@ -845,19 +863,31 @@ def _pair(desc, R, name, strata):
     for k in range(N):
         d = _maxabs(opt[k] - ref[k])
         if not d <= TOL_PAIR * scale:
-            region = _diagnose_alias(R) or R.region
+            region = _diagnose_alias(R) or 'update-rule'
             raise Violation(
                 sig0 + region,
                 '{} leaves its reference at iteration {} of {}: max diff '
                 '{:.3g} (scale {:.3g}); opt {} ref {}'.format(
                     name, k + 1, N, d, scale, np.round(opt[k], 6).tolist(),
                     np.round(ref[k], 6).tolist()))
+    strata.append(_diff_stratum('pair', max(
+        _maxabs(opt[k] - ref[k]) for k in range(N)) / scale))
     moved = _maxabs(opt[-1] - x0) > 0
     nontriv = N >= 2 and moved and R.nonsmooth and \
         not getattr(R, 'L_identity', False)
     strata.append('N:{}'.format('1' if N == 1 else '2-4' if N <= 4
                                 else '5-12'))
     return Outcome('ok', strata=strata, nontrivial=nontriv)
+
+
+def _diff_stratum(what, rel):
+    """Observed relative difference of the two sides (evidence only)."""
+    if rel == 0:
+        return what + '-diff:exactly-0'
+    for e in (16, 14, 12, 10):
+        if rel <= 10.0 ** -e:
+            return what + '-diff:<=1e-{}'.format(e)
+    return what + '-diff:>1e-10'
 
 
 def _resume(desc, R, name, strata):
@@ -876,6 +906,7 @@ def _resume(desc, R, name, strata):
         return Outcome('trivial', strata=strata + ['nonfinite'])
     s2 = R.new_state()
     done = 0
+    worst = 0.0
     for n in splits:
         R.run(s2, n)
         done += n
@@ -884,6 +915,7 @@ def _resume(desc, R, name, strata):
         exp = full[idx] if not early else (full[idx] if idx < len(full)
                                            else full[-1])
         d = _maxabs(got - exp)
+        worst = max(worst, d / scale)
         if not d <= TOL_EXACT * scale:
             raise Violation(
                 sig, 'after segments {} of {} the resumed run differs from '
@@ -901,6 +933,7 @@ def _resume(desc, R, name, strata):
         R.run_naive(s4, N - splits[0])
         if _maxabs(toflat(s4['x'], R.X) - final) > 1e-9 * scale:
             strata.append('pdhg:state-matters')
+    strata.append(_diff_stratum('resume', worst))
     strata.append('segments:{}'.format(len(splits)))
     if 0 in splits:
         strata.append('segments:with-zero')
@@ -980,5 +1013,6 @@ REQUIRED_STRATA = (
     ['op:matrix', 'op:gradient', 'op:broadcast', 'op:pso', 'op:identity',
      'op:divergence', 'op:reduction', 'domain:tensor',
      'domain:tensor-weighted', 'domain:discr', 'domain:pspace',
-     'domain:vfield', 'pdhg:state-matters', 'segments:with-zero',
+     'domain:vfield', 'pdhg:state-matters', 'pdhg:accelerated',
+     'segments:with-zero',
      'callback:inner'])
